@@ -453,4 +453,49 @@ def r7_callback_writer(chk):
                'a failing callback must raise PySmiWriterError')
 
 
-RULES = [r1_dryrun, r2_typestate, r3_complete_write, r4_cleanup, r5_compile_stage, r6_siblings, r7_callback_writer]
+def r8_argument_agreement(chk):
+    rels = sorted(r for r in chk.model.modules if r.startswith(('pysmi/writer/',)))
+    common.argument_agreement(chk, 'C13.R8', rels, floor=1)
+
+
+
+def r9_failure_after_rename_leaves_no_file(chk, rule='C13.R9'):
+    """a writer error raised once the destination file is in place is preceded by its removal"""
+    model = chk.model
+    chk.doc(rule, 'putData of the file writers: on every path from the successful rename to an explicit raise the '
+                  'destination file is removed (os.unlink/os.remove of the rename target, or the path runs through '
+                  'the false branch of an existence test of it) - a module reported failed leaves no file behind')
+    n = 0
+    for rel, cname in WRITERS:
+        owner, fn, mod, cfg, by = analyse_writer(chk, rel, cname)
+        rn = by.get('os.rename', []) + by.get('os.replace', [])
+        if len(rn) != 1 or len(rn[0].args) != 2:
+            chk.ob(rule, '%s.putData/rename' % cname, False, where(mod, fn), 'no single rename(tmp, dest)')
+            continue
+        dest = norm(rn[0].args[1])
+        rnode = cfg.node_of(common.stmt_of(rn[0]))
+        removers = set()
+        for st in ast.walk(fn):
+            if isinstance(st, ast.Call) and dotted_name(st.func) in ('os.unlink', 'os.remove') and st.args and \
+                    norm(st.args[0]) == dest:
+                nd = cfg.node_of(common.stmt_of(st))
+                if nd is not None:
+                    removers.add(nd)
+
+        def exists_test(node):
+            return node.kind == 'test' and any(
+                isinstance(c, ast.Call) and dotted_name(c.func) in ('os.access', 'os.path.exists', 'os.path.isfile')
+                and c.args and norm(c.args[0]) == dest for c in ast.walk(node.expr))
+        seen = cfg.reach_from_edges([(rnode, 'n')], avoid=removers,
+                                    edge_filter=lambda a, b, l: not (l == 'F' and exists_test(a)))
+        raises = [nd for nd in seen if nd.kind == 'stmt' and isinstance(nd.ast, ast.Raise)]
+        n += 1
+        chk.ob(rule, '%s.putData/no-raise-with-file-in-place' % cname, not raises,
+               where(mod, raises[0].ast) if raises else where(mod, fn),
+               'after %s succeeded this raise is reached without removing %s: compile() records the module as failed '
+               'while its file stays in the destination' % (norm(rn[0]), dest))
+    chk.floor(rule, 2, 'file writers')
+
+
+RULES = [r1_dryrun, r2_typestate, r3_complete_write, r4_cleanup, r5_compile_stage, r6_siblings, r7_callback_writer, r8_argument_agreement,
+         r9_failure_after_rename_leaves_no_file]
